@@ -45,6 +45,12 @@ def check_case(ctx, case):
         data = tuple(xs)
     else:
         data = numpy.array(xs, dtype=float if case["dtype"] == "float" else int)
+        if case.get("np_dtype"):
+            # the same whole numbers stored as another integer type (event counts are often unsigned / narrow): same values
+            cast = data.astype(case["np_dtype"])
+            if numpy.array_equal(cast.astype(object), data.astype(object)):
+                data = cast
+                ctx.count("np_dtype:" + case["np_dtype"])
         if cont == "readonly":
             data.setflags(write=False)
         elif cont == "bigendian":
@@ -110,7 +116,7 @@ def run(ctx):
         qs = queries(letters)
         for size in range(1, 8):
             for ms in itertools.combinations_with_replacement(range(6), size):
-                for container in ("list", "ndarray"):
+                for container in ("list", "ndarray") + (("uint8", "uint64", "int16") if dtype == "int" else ("float32_free",)):
                     combos.append((dtype, letters, qs, ms, container))
     for i, (dtype, letters, qs, ms, container) in enumerate(combos):
         if i % ctx.nshards != ctx.shard:
@@ -120,9 +126,13 @@ def run(ctx):
         k = i % len(xs)
         xs = xs[k:] + xs[:k]
         case = {"x": xs, "q": qs, "dtype": dtype, "container": container}
+        if container in ("uint8", "uint64", "int16"):
+            case = {"x": xs, "q": qs, "dtype": dtype, "container": "ndarray", "np_dtype": container}
+        elif container == "float32_free":
+            continue
         ctx.check(case)
         ctx.record(case, nontrivial(case), "exhaustive")
-    ctx.exhaustive["multisets<=7 over 6 letters x dtype x container x 13 queries"] = True
+    ctx.exhaustive["multisets<=7 over 6 letters x dtype x container (integers also as uint8 / uint64 / int16 arrays) x 13 queries"] = True
 
     # ---- sampled part: large samples, heavy ties
     def big(draw):
@@ -160,6 +170,8 @@ def run(ctx):
         order = draw(st.sampled_from([None, None, "sorted", "reversed"]))      # samples that arrive already ordered
         if order:
             case["order"] = order
+        if dtype == "int" and not huge and case["container"] != "list" and case["container"] != "tuple" and draw(st.booleans()):
+            case["np_dtype"] = draw(st.sampled_from(["uint8", "uint16", "uint32", "uint64", "int8", "int16", "int32"]))     # applied when every value fits
         qtype = draw(st.sampled_from([None, None, "np_scalar", "zero_d"]))
         if qtype and not huge:
             case["qtype"] = qtype
@@ -168,6 +180,6 @@ def run(ctx):
     def check_big(c, case):
         check_case(c, case)
         c.record({"n": len(case["x"]), "alphabet": sorted(set(case["x"])), "q": case["q"], "dtype": case["dtype"],
-                  "container": case["container"], "order": case.get("order"), "qtype": case.get("qtype"), "head": case["x"][:20]}, nontrivial(case), "sampled")
+                  "container": case["container"], "np_dtype": case.get("np_dtype"), "order": case.get("order"), "qtype": case.get("qtype"), "head": case["x"][:20]}, nontrivial(case), "sampled")
 
     ctx.drive(st.composite(big)(), ctx.n(60, 400), fn=check_big)
